@@ -359,7 +359,9 @@ def run_check(prop, tier, seed):
         notes = rp.get('notes') or {}
         aid = c['v']['assert']
         ok = False
-        if rp.get('mismatch'):
+        if rp.get('mismatch') and not (rp['mismatch'].startswith('replay vector exhausted') and aid in (rp.get('failed') or [])):
+            # (running out of inputs after the assertion has already failed natively is fine: the
+            # engine stops a path at a definitely failed assertion, the native harness runs on)
             inconcl.append('replay vector mismatch (%s) in %s' % (rp['mismatch'], c['job']['id']))
             continue
         if c['kind'] == 'panic':
